@@ -36,8 +36,8 @@ CLAIMS = {
               'generator) yields a configuration canonically equal to the input (callables, arguments, tags, '
               'aliasing). For the same leaf set in eight nestings (bare, list, tuple, dict value, dict key, set '
               'element, nested, named tuple) convert_py_val_to_cst either raises or emits an expression that '
-              'evaluates to a value of the same type and value (NaN by isnan, signed zero by sign). One listed known '
-              'finding (tags under new_codegen).'),
+              'evaluates to a value of the same type and value (NaN by isnan, signed zero by sign).'
+              ''),
         note=_A_NOTE + ' Text pipeline: selectors concretised by comparisons, body under NoTracing (symbolic_leaves: false).'),
     'C19': dict(
         engine='B-direct-smt',
